@@ -680,8 +680,15 @@ impl<'g, 'r> ProgGen<'g, 'r> {
         match self.g.weighted(&w) {
             0 => {
                 let op = *self.g.pick(&[BinOp::Add, BinOp::Add, BinOp::Sub, BinOp::Sub, BinOp::And, BinOp::Or, BinOp::Xor]);
-                let a = self.expr8(fc, want, depth - 1);
+                let mut a = self.expr8(fc, want, depth - 1);
                 let b = if self.g.chance(7, 10) { self.leaf_w(fc, want) } else { self.expr8(fc, want, depth - 1) };
+                if !Self::has_var(&a) && !Self::has_var(&b) {
+                    // constant sub-expressions are C10's business; keep a variable in every operator
+                    let c = self.visible_scalars(fc, Some(true), false);
+                    let (n, _) = self.g.pick(&c).clone();
+                    fc.touched.insert(n.clone());
+                    a = Expr::var(&n);
+                }
                 Expr::bin(op, a, b)
             }
             1 => {
